@@ -252,14 +252,14 @@ impl Database {
             return Ok(region);
         }
 
-        let start = if let Some(start) = layout.find_smallest_adequate_hole(PAGE_SIZE) {
-            layout.remove_or_compress_hole(start, PAGE_SIZE)?;
-            start
-        } else {
-            layout.len()
-        };
+        let hole = layout.find_smallest_adequate_hole(PAGE_SIZE);
+        let start = hole.unwrap_or_else(|| layout.len());
 
+        // Create first: if growing the metadata file fails, the hole must stay booked.
         let region = regions.create(self, id.to_owned(), start)?;
+        if hole.is_some() {
+            layout.remove_or_compress_hole(start, PAGE_SIZE)?;
+        }
         layout.insert_region(start, &region);
         Ok(region)
     }
